@@ -53,6 +53,7 @@ type gate struct {
 	obj        any // mutex / waitgroup / once
 	addr       uintptr
 	write      bool
+	arrival    bool // the scheduling point in front of a blocking operation on an unbuffered channel
 }
 
 type selCase struct {
@@ -100,6 +101,8 @@ type Task struct {
 	prio      int
 	readyArms []int
 	Steps     int
+	gates     int
+	inStall   bool
 
 	// user data for harnesses
 	Tag any
@@ -141,44 +144,52 @@ type Config struct {
 	Classify  func(siteName string) string
 	OnStep    func(s *Sim, released *Task)
 	SharedPkg func(pkg string) bool // which packages' shared-access gates are scheduling points
+	// Stall, when set, is asked at every gate (n counts the task's gates; arrival marks the point
+	// in front of a blocking operation on an unbuffered channel) whether the goroutine is
+	// descheduled there for some simulated time first: everything else runs, timers fire, the
+	// clock moves, and this goroutine does not take part (a slow or stalled thread). Must be a
+	// pure function of its arguments.
+	Stall func(t *Task, n int, arrival bool) time.Duration
 }
 
 // Sim is one simulation.
 type Sim struct {
-	cfg      Config
-	Tasks    []*Task
-	running  *Task
-	pair     [2]*Task
-	yield    chan *Task
-	now      int64
-	seq      uint64
-	timers   evHeap
-	Steps    int
-	Trace    []Decision
-	Diverged int // replay decisions that could not be followed
-	EndKind  string
-	Panics   []PanicInfo
-	Exits    []string // process exits requested (log.Fatalf)
-	Races    []Race
-	Fail     string // machinery trouble (unsupported construct...)
-	hash     uint64
-	enabled  []*Task
-	closed   map[uintptr]bool
-	chans    map[uintptr]*chanHB
-	stopReq  bool
-	tearing  bool
-	wg       sync.WaitGroup
-	replayIx int
-	wgs      map[*sync.WaitGroup]int
-	onces    map[*sync.Once]int // 1 running, 2 done
-	onceVC   map[*sync.Once][]uint32
-	locs     map[uintptr]*locState
-	mtxVC    map[uintptr][]uint32
-	atomVC   map[uintptr][]uint32
-	sharedOn []bool // per site
-	conds    map[*sync.Cond][]*condWaiter
-	live     []*Task // tasks that have not exited, in creation order
-	events   uint64  // harness events folded in so far
+	cfg             Config
+	Tasks           []*Task
+	running         *Task
+	pair            [2]*Task
+	yield           chan *Task
+	now             int64
+	seq             uint64
+	timers          evHeap
+	Steps           int
+	Trace           []Decision
+	Diverged        int // replay decisions that could not be followed
+	EndKind         string
+	Panics          []PanicInfo
+	Exits           []string // process exits requested (log.Fatalf)
+	GoroutineStalls int      // goroutines descheduled for simulated time at a gate (Config.Stall)
+	ArrivalStalls   int      // ... of which in front of a blocking operation on an unbuffered channel
+	Races           []Race
+	Fail            string // machinery trouble (unsupported construct...)
+	hash            uint64
+	enabled         []*Task
+	closed          map[uintptr]bool
+	chans           map[uintptr]*chanHB
+	stopReq         bool
+	tearing         bool
+	wg              sync.WaitGroup
+	replayIx        int
+	wgs             map[*sync.WaitGroup]int
+	onces           map[*sync.Once]int // 1 running, 2 done
+	onceVC          map[*sync.Once][]uint32
+	locs            map[uintptr]*locState
+	mtxVC           map[uintptr][]uint32
+	atomVC          map[uintptr][]uint32
+	sharedOn        []bool // per site
+	conds           map[*sync.Cond][]*condWaiter
+	live            []*Task // tasks that have not exited, in creation order
+	events          uint64  // harness events folded in so far
 	// periodic idling: the same configuration met again and again at clock jumps without any
 	// harness-visible event in between (code that polls with time.After in a loop)
 	idleCfg    uint64
@@ -440,6 +451,23 @@ func (s *Sim) park(g gate) wakeMsg {
 	if t == nil {
 		panic("simrt: gate called outside any simulated task")
 	}
+	if f := s.cfg.Stall; f != nil && g.kind != gWait && !t.inStall {
+		t.gates++
+		if d := f(t, t.gates, g.arrival); d > 0 {
+			s.GoroutineStalls++
+			if g.arrival {
+				s.ArrivalStalls++
+			}
+			t.inStall = true
+			over := false
+			s.At(d, func() { over = true })
+			m := s.parkRaw(t, gate{kind: gWait, site: -1, cond: func() bool { return over }})
+			t.inStall = false
+			if m.poison {
+				runtime.Goexit()
+			}
+		}
+	}
 	m := s.parkRaw(t, g)
 	if m.poison {
 		runtime.Goexit()
@@ -582,6 +610,11 @@ func (s *Sim) partnerFor(t *Task, p uintptr, tSends bool) (partner *Task, parm i
 				return o, -1
 			}
 		case gSelect:
+			// a select with a default never blocks: it is nobody's waiting partner (two
+			// non-blocking operations on an unbuffered channel never meet)
+			if g.hasDefault {
+				continue
+			}
 			for i := range g.cases {
 				c := &g.cases[i]
 				if !c.nilc && c.chp == p && c.send != tSends {
@@ -971,7 +1004,22 @@ func BeforeSend(site int32, ch any) {
 	if v.IsValid() && !v.IsNil() {
 		p = v.Pointer()
 	}
+	s.arrive(site, v)
 	s.park(gate{kind: gSend, site: site, ch: v, chp: p})
+}
+
+// arrive is the scheduling point in front of a blocking operation on an UNBUFFERED channel: a
+// task parked at a send/receive/select gate counts as blocked in that operation (a partner for
+// the other side, visible to a non-blocking select), and a goroutine that has not reached the
+// operation yet is not. Without this point the window "about to block, but not blocked yet" -
+// in which another goroutine's non-blocking send or receive finds nobody and gives up (the
+// classic lost wake-up) - would not exist in the simulation. Buffered channels need none: what
+// others can observe there is the buffer, not who waits.
+func (s *Sim) arrive(site int32, v reflect.Value) {
+	if s.tearing || !v.IsValid() || v.IsNil() || v.Cap() != 0 {
+		return
+	}
+	s.park(gate{kind: gYield, site: site, arrival: true})
 }
 
 // AfterSend follows every instrumented send. After an unbuffered rendezvous the sender parks
@@ -1001,6 +1049,7 @@ func RC[C any](site int32, ch C) C {
 	if v.IsValid() && !v.IsNil() {
 		p = v.Pointer()
 	}
+	s.arrive(site, v)
 	s.park(gate{kind: gRecv, site: site, ch: v, chp: p})
 	return ch
 }
@@ -1052,6 +1101,14 @@ func Select(site int32, hasDefault bool, cases ...Case) int {
 			sc.chp = v.Pointer()
 		}
 		g.cases[i] = sc
+	}
+	if !hasDefault {
+		for i := range g.cases {
+			if c := &g.cases[i]; !c.nilc && c.ch.Cap() == 0 {
+				s.arrive(site, c.ch)
+				break
+			}
+		}
 	}
 	m := s.park(g)
 	return m.arm
